@@ -153,4 +153,65 @@ theorem C16_assumption_needed_counterexample : ¬ C16_inv_reachable_noassumption
   revert this
   decide
 
+/-! ### a list object that the caller holds (finding D16d) -/
+
+/-- the property for a held `Trackers` object as stated: after every history of operations on the
+    object obtained from the empty torrent the metainfo mirrors the object -/
+def C16_held_sync_full : Prop :=
+  ∀ (isUrl : String → Bool), UrlAssumption isUrl → ∀ ops : List HOp,
+    Mirrors (heldRun isUrl MI.init ⟨[], true⟩ ops).1 (heldRun isUrl MI.init ⟨[], true⟩ ops).2.tiers
+
+/-- one step on a held object whose callback is set: if the callback is still set afterwards, the
+    metainfo mirrors the object again — whatever the operation, successful or raising, from any
+    state in which it mirrored the object before -/
+theorem C16_held_sync_step_partial (isUrl : String → Bool) (s : MI) (h : HeldTr) (op : HOp)
+    (hcb : h.cb = true) (hm : Mirrors s h.tiers) :
+    (heldStep isUrl s h op).2.1.cb = true →
+      Mirrors (heldStep isUrl s h op).1 (heldStep isUrl s h op).2.1.tiers := by
+  cases op with
+  | replace vs =>
+    simp only [heldStep, heldReplace]
+    split
+    · intro hc; simp at hc
+    · intro _; simp [hcb, Mirrors, writeTrackers, wOf]
+  | append v =>
+    simp only [heldStep, heldAppend]
+    split
+    · intro _; exact hm
+    · intro _; simp [hcb, Mirrors, writeTrackers, wOf]
+  | clear =>
+    intro _; simp [heldStep, heldClear, hcb, Mirrors, writeTrackers, wOf]
+
+/-- the callback is lost only by a `replace` that raises -/
+theorem C16_held_callback_lost_only_by_failed_replace (isUrl : String → Bool) (s : MI) (h : HeldTr)
+    (op : HOp) (hcb : h.cb = true) (hlost : (heldStep isUrl s h op).2.1.cb = false) :
+    ∃ vs e, op = .replace vs ∧ (heldStep isUrl s h op).2.2 = .error e := by
+  cases op with
+  | replace vs =>
+    refine ⟨vs, ?_⟩
+    simp only [heldStep, heldReplace] at hlost ⊢
+    split at hlost
+    · rename_i T' e heq
+      refine ⟨e, ?_⟩
+      simp [heq]
+    · simp [hcb] at hlost
+  | append v =>
+    simp only [heldStep, heldAppend] at hlost
+    split at hlost <;> simp [hcb] at hlost
+  | clear => simp [heldStep, heldClear, hcb] at hlost
+
+/-- D16d: `t.trackers = [[a]]; tr = t.trackers; tr.replace([[b], ['foo']])` raises the URL error
+    with the object half replaced and its callback gone; `tr.append('http://a b')` is then not written -/
+def wD16d : List HOp :=
+  [.append (.list ["http://a/1"]), .replace [.list ["http://b/2"], .list ["foo"]], .append (.str "http://a b")]
+
+theorem C16_held_replace_counterexample : ¬ C16_held_sync_full := by
+  intro h
+  have := h wIsUrl wIsUrl_assumption wD16d
+  revert this
+  decide
+
+example : heldRun wIsUrl MI.init ⟨[], true⟩ wD16d =
+    ({ announce := some "http://a/1" }, ⟨[["http://b/2"], ["http://a+b"]], false⟩) := by decide
+
 end Torf.C16
